@@ -72,6 +72,7 @@ class Report:
         self.remainder = ''
         self.violations = []           # dicts(key, what, replay, replayed)
         self.known_hits = []
+        self._solver_s0 = sym.STATS.solver_s     # solver time is accumulated per process: report this property's share
         self.known_obligation_names = set()
         self.extra = {}
         self.known = [k for k in load_known_findings() if k.get('property') == prop]
@@ -277,7 +278,7 @@ class Report:
             'trusted_base': self.trusted,
             'functions_under_contract': list(self.functions.values()),
             'obligations_by_name': names,
-            'by_route': by_route, 'by_backend': by_backend, 'solver_s': round(sym.STATS.solver_s, 2),
+            'by_route': by_route, 'by_backend': by_backend, 'solver_s': round(sym.STATS.solver_s - self._solver_s0, 2),
             'solver_checks': sym.STATS.checks, 'paths': sym.STATS.paths, 'covers': self.covers[:60],
             'undecided': self.undecided_list, 'checker_errors': self.errors,
             'bounded': [{k: v for k, v in b.items() if k not in ('failures',)} for b in self.bounded_sections],
